@@ -351,5 +351,8 @@ def check(col: Collector, tier: str):
     import_obligations(col, "C02.R10", "c16", lambda o: o.rule == "C16.R4",
                        "the entry script must work in each of its documented modes (build only, run only, both): a path that is only set in one "
                        "branch is undefined in the other")
+    import_obligations(col, "C02.R10", "c06", lambda o: o.detail == "finder-built-from-a-copy-of-the-method-table",
+                       "declarations of one query written into the executor's own table give a later query code that uses members, headers and "
+                       "container types its own package never declares")
     import_obligations(col, "C02.R10", "c10", lambda o: o.rule == "C10.R3",
                        "a wrong deref count or pointer depth makes every use of the method's result ill-typed")
